@@ -19,7 +19,7 @@ RULE = ("deterministic virtual-clock event loop; a real BaseClient (recording se
         "polls happen exactly at delay + k*interval while waiting and never after completion; no callback stays registered. "
         "non-trivial = a run in which at least one event was injected; distinct = hash(pattern, timeout, polling, condition)")
 ASSUMPTIONS = ["exact ties between an event and the timeout instant are excluded by off-grid constants"]
-REQUIRED_EVENTS = ["runs", "waits_completed_by_event", "waits_timed_out", "waits_still_pending_without_timeout", "polls_observed",
+REQUIRED_EVENTS = ["decoy_reports_from_another_property", "runs_with_a_filter_that_leaves_an_upper_level_open", "runs", "waits_completed_by_event", "waits_timed_out", "waits_still_pending_without_timeout", "polls_observed",
                    "batches_with_two_matches", "redefinitions_injected", "whole_device_deletions_during_a_wait", "values_written_by_the_client_and_then_confirmed", "runs_in_which_every_message_carries_the_same_timestamp"]
 EXHAUSTIVE_NOTE = "every assignment of the five slot kinds to every grid point x timeouts x polling x conditions (quick: 6 grid points; thorough: 7)"
 
@@ -104,7 +104,18 @@ class Feeder:
         return M.SetTextVector(device="D", name="P", timestamp=self.ts, state=new, children=())
 
 
-def wait_kwargs(cond, kind, timeout, polling):
+def wait_kwargs(cond, kind, timeout, polling, open_level=None):
+    kw = _wait_kwargs(cond, kind, timeout, polling)
+    # a filter that leaves an upper level open and names a lower one: "property P, element E of whatever device", "element E of
+    # device D, whatever the property"
+    if open_level == "device":
+        del kw["device"]
+    elif open_level == "vector" and "element" in kw:
+        del kw["vector"]
+    return kw
+
+
+def _wait_kwargs(cond, kind, timeout, polling):
     from indi.client import events as E
     kw = {"device": "D", "vector": "P", "timeout": timeout}
     if kind == "any":
@@ -145,6 +156,8 @@ def wait_kwargs(cond, kind, timeout, polling):
 
 def is_match(cond, kind, ev):
     name = type(ev).__name__
+    if getattr(getattr(ev, "vector", None), "name", "P") != "P":
+        return False        # an event of the decoy property D.Q (element F): no filter any wait uses lets it through
     if kind == "any":
         if name == "ValueUpdate":
             v = ev.new_value
@@ -208,6 +221,7 @@ def run_one(ctx, case):
     whole_device_deletions = [0]
     client_writes = [0]
     runs_same_second = [0]
+    decoys = [0]
     match_times = []          # instants at which the harness injected a report that satisfies the FIRST wait's condition
 
     async def main():
@@ -216,6 +230,23 @@ def run_one(ctx, case):
         if same_second:
             runs_same_second[0] += 1
         client.process_message(feeders[0].definition())
+        decoy_n = [0]
+
+        def decoy_definition():
+            return M.DefTextVector(device="D", name="Q", timestamp=same_second, state="Idle", perm="rw", children=(def_parts.DefText(name="F", value="INIT"),))
+
+        def decoy():
+            """Another property of the same device reports, in another element, the very value / state the waits are waiting for."""
+            from indi.message import one_parts
+            decoy_n[0] += 1
+            for st, val in (("Busy", f"X{decoy_n[0]}"), ("Ok", {"expect": "GO", "initial": f"V{decoy_n[0]}", "check": f"GOOD{decoy_n[0]}"}[feeders[0].cond])):
+                keep = current_message_state[0]
+                current_message_state[0] = st
+                client.process_message(M.SetTextVector(device="D", name="Q", timestamp=same_second, state=st, children=(one_parts.OneText(name="F", value=val),)))
+                current_message_state[0] = keep
+            decoys[0] += 1
+        if case.get("open_level"):
+            client.process_message(decoy_definition())
         client.sent.clear()
         del spy[:]
         base_callbacks = len(client.callbacks)
@@ -226,7 +257,7 @@ def run_one(ctx, case):
             rec = {"idx": idx, "cond": cond, "kind": kind, "done_at": None, "event": None, "error": None}
             results.append(rec)
             try:
-                rec["event"] = await client.waitforevent(**wait_kwargs(cond, kind, timeout, polling))
+                rec["event"] = await client.waitforevent(**wait_kwargs(cond, kind, timeout, polling, case.get("open_level")))
             except asyncio.CancelledError:
                 rec["error"] = "cancelled"
                 raise
@@ -252,7 +283,11 @@ def run_one(ctx, case):
                     current_message_state[0] = feeder.def_state
                     client.process_message(M.DelProperty(device="D"))
                     client.process_message(feeder.definition())
+                    if case.get("open_level"):
+                        client.process_message(decoy_definition())
                     whole_device_deletions[0] += 1
+                if case.get("open_level") and not match:
+                    decoy()
                 msg = feeder.make(match)
                 if msg is None:
                     msg = feeder.make(not match) if False else None
@@ -304,6 +339,9 @@ def run_one(ctx, case):
     ctx.count("batches_with_two_matches", two_match_batches[0])
     ctx.count("redefinitions_injected", redefs[0])
     ctx.count("whole_device_deletions_during_a_wait", whole_device_deletions[0])
+    ctx.count("decoy_reports_from_another_property", decoys[0])
+    if case.get("open_level"):
+        ctx.count("runs_with_a_filter_that_leaves_an_upper_level_open")
     ctx.count("values_written_by_the_client_and_then_confirmed", client_writes[0])
     ctx.count("runs_in_which_every_message_carries_the_same_timestamp", runs_same_second[0])
     # ---- oracle
@@ -379,8 +417,12 @@ def run_one(ctx, case):
         ctx.violate(key, f"getProperties polls at {polls}, expected {want_polls} (waits completed at {done_times})", case,
                     {"sent": client.sent[:20]})
         return False
+    targets = set()
+    for c_, k_ in conds:
+        kw_ = wait_kwargs(c_, k_, timeout, polling, case.get("open_level"))
+        targets.add((kw_.get("device"), kw_.get("vector")))
     for (t, name, dev, nm) in client.sent:
-        if name == "GetProperties" and (dev != "D" or nm != "P"):
+        if name == "GetProperties" and (dev, nm) not in targets:
             ctx.violate("poll-addresses-wrong-target", f"poll for device={dev} name={nm}", case)
             return False
     cancelled = sum(1 for rec in results if rec["error"] == "cancelled")   # waits the harness itself cancelled at the horizon
@@ -415,7 +457,8 @@ def run(ctx):
                 if not ctx.thorough and (i % 2):
                     picks = picks[:1]
                 one_case(ctx, {"pattern": list(pattern), "timeout": timeout, "polling": list(polling) if polling else None,
-                               "conds": [list(p) for p in picks], "device_vanishes": i % 5 == 3, "client_writes": i % 7 == 5, "same_second": i % 9 == 4})
+                               "conds": [list(p) for p in picks], "device_vanishes": i % 5 == 3, "client_writes": i % 7 == 5, "same_second": i % 9 == 4,
+                               "open_level": {2: "device", 5: "vector"}.get(i % 8)})
                 if i % 1499 == 0:
                     ctx.sample({"pattern": list(pattern), "timeout": timeout, "polling": polling, "conditions": picks})
                 if ctx.enough():
